@@ -10,6 +10,7 @@ claimed = {
  "C03": ("§6 C03", "seeded search over histories with >=3 collections, local batches and getters; growing sets, batch atomicity, completeness at quiescence (read under the scheduler), progress: never stuck, and a waiting collector only waits for observations it reports or that started before it", "deterministic simulation: seeded schedules + stalls + spurious CAS; conservation and bounded-liveness (stuck detection with spin blocking) oracles"),
  "C10": ("§6 C10", "seeded schedule search over the real metric vector; child identity observed from the atomic cell each update / collected sample touched; map-operation history checked for linearizability (Wing-Gong) against a map model, values against the per-child update rule; single-threaded histories compared sequentially", "deterministic simulation: seeded schedules + stalls between read-unlock and write-lock; linearizability checker with observed child identity"),
  "C05": ("§6 C05", "generated vectors of every kind (incl. local vectors) and adversarially split label-value tuples, values and map form under seed-controlled hash seeds, invalid requests; bit-weighted updates make aliasing between any two requests visible; run on 1-2 simulated threads", "deterministic simulation used as workload + reference-model harness (group C: sequential oracle; schedule and hash seed varied but not essential)"),
+ "C06": ("§6 C06", "generated register/unregister/gather histories over pools of scripted multi-descriptor collectors with frequent identity clashes and dimension disagreements, sequential and from 2-3 simulated threads; every outcome and gathered sample set compared with a reference registry (linearizability for concurrent histories); the half-failed multi-descriptor registration is the injected crash", "deterministic simulation: generated call histories with failing calls + reference model; seeded schedules and linearizability checker for the concurrent part"),
 }
 checks = []
 for pid in sorted(claimed):
